@@ -536,7 +536,7 @@ func g1Worker(w *pool.W, arg json.RawMessage) {
 		if len(traces) < 50000 {
 			traces[exp.String()] = true
 		}
-		if n == 1 && sh.Rem == 0 {
+		if n == 40 && sh.Rem == 0 {
 			w.Emit(rec{Kind: "sample", Case: map[string]any{"program": p.canon(), "expected_trace": exp.String(), "expected_probes": exp.Probes, "script": source(p, sh.Seed)}})
 		}
 		if clause == "" {
